@@ -30,12 +30,18 @@ def prepare_scratch(repo, splices):
       shutil.copy2(os.path.join(repo, name), os.path.join(d, name))
     for sub in ('crates', 'std'):
       subprocess.run(['rsync', '-a', '--exclude', 'target', os.path.join(repo, sub), d], check=True)
+    hdir = os.path.join(d, 'verif_harness')
     for rel, harness, modname in splices:
       target = os.path.join(d, rel)
       if not os.path.exists(target):
         raise KaniSetupError('anchor lost: %s does not exist' % rel)
+      # the harness file is copied into the scratch copy (byte-identical), so that a concrete-playback
+      # test can be appended to the copy without touching /verif
+      hcopy = os.path.join(hdir, harness.replace('/', '__'))
+      os.makedirs(hdir, exist_ok=True)
+      shutil.copy2(os.path.join(VERIF, harness), hcopy)
       with open(target, 'a') as f:
-        f.write('\n#[cfg(kani)] #[path = "%s"] mod %s;\n' % (os.path.join(VERIF, harness), modname))
+        f.write('\n#[cfg(kani)] #[path = "%s"] mod %s;\n' % (hcopy, modname))
     os.makedirs(os.path.join(d, '.cargo'), exist_ok=True)
     with open(os.path.join(d, '.cargo', 'config.toml'), 'w') as f:
       f.write('[net]\noffline = true\n')
@@ -147,3 +153,25 @@ def run_harnesses(scratch, crate, modname, harnesses, jobs=8, timeout_s=240, unw
     r['raw'] = txt[-6000:]
     res[h] = r
   return res, wall, out, ' '.join(cmd)
+
+
+def native_replay(scratch, crate, harness_rel, playback_text, timeout=900):
+  """Append the concrete-playback unit test to the scratch copy of the harness file and run it natively
+  (`cargo kani playback`): the counterexample is executed against the real function outside CBMC.
+  Returns ('failed' = violation confirmed | 'passed' = not reproduced | 'error', output tail)."""
+  hcopy = os.path.join(scratch, 'verif_harness', harness_rel.replace('/', '__'))
+  with open(hcopy, 'a') as f:
+    f.write('\n' + playback_text + '\n')
+  cmd = ['cargo', 'kani', 'playback', '-p', crate, '-Z', 'concrete-playback', '--', 'kani_concrete_playback']
+  env = dict(os.environ, CARGO_NET_OFFLINE='true', CARGO_TARGET_DIR=CACHE)
+  try:
+    p = subprocess.run(cmd, cwd=scratch, env=env, stdout=subprocess.PIPE, stderr=subprocess.STDOUT, text=True, timeout=timeout)
+    out = p.stdout
+  except subprocess.TimeoutExpired:
+    return 'error', 'native replay timed out'
+  m = re.search(r'test result: (\w+)\. (\d+) passed; (\d+) failed', out)
+  if not m:
+    return 'error', out[-1500:]
+  if int(m.group(3)) > 0:
+    return 'failed', out[-1500:]
+  return 'passed', out[-800:]
